@@ -494,19 +494,36 @@ def r3_representation_switch(repo=None):
     def under_flag(fn, target):
         out = {}
         node = None
+        params_ = {p_.name for p_ in fn.children if p_.kind == "ParmVarDecl"}
         for fl in (1, 0):
             v, n_ = value_under(fn, target, {"needs_chunking": fl}, flag)
             if v is None:
                 return None, None
             node = n_
+            # the value may be a local that was itself chosen under the flag (`first_row = flag ? 0 : max - left`)
+            hops = 0
+            while hops < 3 and v.intval() is None and v.kind == "DeclRefExpr" and v.path() not in params_:
+                v2, _n2 = value_under(fn, v.path(), {"needs_chunking": fl}, flag)
+                if v2 is None:
+                    break
+                v = v2
+                hops += 1
             out[bool(fl)] = v.intval() if v.intval() is not None else _local_alias_text(fn, v)
         return out, node
+
+    def unresolved(fn, got):
+        """a value text that still names a local of fn (not a parameter): the comparison with the expected text says nothing"""
+        params_ = {p_.name for p_ in fn.children if p_.kind == "ParmVarDecl"}
+        locals_ = {d.name for d in fn.find("VarDecl")} - params_
+        return [t for t in got.values() if isinstance(t, str) and (set(re.findall(r"[A-Za-z_]\w*", t)) & locals_)]
     rows_var = _rows_target(cf)
     got, node = under_flag(cf, rows_var)
     if got is None:
         raise AnalysisError("%s: assignment of the data-set row count `%s` not found" % (cf.name, rows_var))
     if got == {True: "samples_to_write", False: "max_samples_this_file"}:
         r.ok("%s:%s %s %s" % (LIB, node.line, cf.name, rows_var), "samples_to_write when chunked, max_samples_this_file when dense")
+    elif unresolved(cf, got):
+        raise AnalysisError("%s: the data-set row count under needs_chunking (%s) is held in locals this rule did not resolve" % (cf.name, got))
     else:
         r.violation(LIB, cf.name, "data-set rows under needs_chunking: %s" % got, "dataset size does not follow the representation flag "
                     "(a dense file must expose every slot of its window)", line=node.line)
@@ -515,6 +532,8 @@ def r3_representation_switch(repo=None):
         raise AnalysisError("%s: assignment of dataset_index not found" % cf.name)
     if gotd == {True: 0, False: "max_samples_this_file-samples_left"}:
         r.ok("%s:%s %s dataset_index" % (LIB, node.line, cf.name), "0 when chunked, max - samples_left when dense")
+    elif unresolved(cf, gotd):
+        raise AnalysisError("%s: dataset_index under needs_chunking (%s) is held in locals this rule did not resolve" % (cf.name, gotd))
     else:
         r.violation(LIB, cf.name, "dataset_index under needs_chunking: %s" % gotd, "write offset in a new file does not follow "
                     "the representation flag", line=node.line)
